@@ -218,7 +218,7 @@ static void battery_tamper(const kctx_t *kc, const uint8_t *pkt, size_t plen, co
     uint8_t etag[8];
     uint8_t *p, *em;
     int b, d, light = blen > 2048;
-    scratch_need(plen + 16);
+    scratch_need(plen + 256);
     p = scratch_pkt; em = scratch_m;
 
 #define JUDGE_CUR(what) do { \
@@ -407,7 +407,7 @@ static void battery_tamper(const kctx_t *kc, const uint8_t *pkt, size_t plen, co
             }
         }
         /* swap AD and body */
-        if (kc->adlen && blen && blen <= sizeof ad2) {
+        if (kc->adlen && blen && blen <= sizeof ad2 && kc->adlen <= 160) {       /* p holds plen + 16 bytes: only short ADs can become a body */
             memcpy(ad2, pkt, blen);
             memcpy(p, kc->ad, kc->adlen); memcpy(p + kc->adlen, pkt + blen, 8);
             k2c = *kc; k2c.ad = ad2; k2c.adlen = blen;
